@@ -17,8 +17,8 @@
    Definitions only; proofs in Proofs/Confluence.v. *)
 From Eino Require Import Base.Util.
 
-Definition val := list N.
-Definition nid := N.
+Notation val := (list N) (only parsing).
+Notation nid := N (only parsing).
 Definition START : nid := 0%N.
 Definition END : nid := 1%N.
 Definition tok_in : N := 2%N.                     (* key "in" of the graph input {"in": {}} *)
@@ -31,7 +31,7 @@ Definition graph := list node.                    (* END is the node with n_id =
 
 Inductive mode := Pregel | Dag.
 
-Definition key2 := (nid * nid)%type.              (* (target, source) *)
+Notation key2 := (N * N)%type (only parsing).     (* (target, source) *)
 Definition k2eqb (a b : key2) : bool := N.eqb (fst a) (fst b) && N.eqb (snd a) (snd b).
 
 Record cstate := mkc { vals : list (key2 * val); deps : list key2 }.
